@@ -695,6 +695,26 @@ func (se *SpecEnv) call(e *SCall) SVal {
 		}
 		return SVal{T: x.A.Ref}
 	}
+	if strings.HasPrefix(e.Fun, "dyn_") && len(e.Args) == 1 {
+		// result of an interface method declared pure (`dyncall Iface.Method pure`)
+		for _, d := range ex.g.cs.Dyn {
+			if d.Pure && "dyn_"+sanitize(d.Method) == e.Fun {
+				x := se.value(se.eval(e.Args[0]))
+				if x.Sort != SIface {
+					return se.fail("%s expects an interface value", e.Fun)
+				}
+				so := SInt
+				if s, ok := ex.dynSort[e.Fun]; ok {
+					so = s
+				}
+				if !ex.ufunUsed[e.Fun] {
+					ex.ufunUsed[e.Fun] = true
+					ex.ufunDecl = append(ex.ufunDecl, fmt.Sprintf("(declare-fun %s (Iface) %s)", e.Fun, so))
+				}
+				return SVal{T: app(so, e.Fun, x)}
+			}
+		}
+	}
 	if u, ok := ex.g.cs.UFuns[e.Fun]; ok {
 		args := make([]Term, len(e.Args))
 		for i, a := range e.Args {
